@@ -599,3 +599,33 @@ fn c22_v_n1_twin() {
     let w = walk(&buf, len, 4);
     assert!(w != Some(len), "twin: must fail");
 }
+
+// ---------------------------------------------------------------------------------------------
+// handshake refuse reasons (no version table involved) and local message notification (empty batches)
+// ---------------------------------------------------------------------------------------------
+use pallas_network::miniprotocols::handshake::RefuseReason;
+use pallas_network::miniprotocols::localmsgnotification as lmn;
+
+fn noeq_refuse(_: &RefuseReason, _: &RefuseReason) -> bool {
+    true
+}
+fn noeq_lmn(_: &lmn::Message, _: &lmn::Message) -> bool {
+    true
+}
+fn any_u64c() -> u64 {
+    // version numbers in the one-byte head class (what real tables contain); two symbolic values may coincide
+    let v: u8 = kani::any();
+    kani::assume(v < 24);
+    v as u64
+}
+// bound: RefuseReason::VersionMismatch with 0, 1 and 2 symbolic version numbers (< 24, possibly equal), HandshakeDecodeError / Refused with an empty message; localmsgnotification messages with empty batches; encoder output must be exactly one well-formed CBOR item
+wf!(c22_q_n1_hs_refuse_mismatch0_wf, RefuseReason, 16, 6, 10, RefuseReason::VersionMismatch(vec![]), noeq_refuse);
+wf!(c22_q_n1_hs_refuse_mismatch1_wf, RefuseReason, 16, 6, 10, RefuseReason::VersionMismatch(vec![any_u64c()]), noeq_refuse);
+wf!(c22_q_n1_hs_refuse_mismatch2_wf, RefuseReason, 16, 8, 10, RefuseReason::VersionMismatch(vec![any_u64c(), any_u64c()]), noeq_refuse);
+wf!(c22_q_n1_hs_refuse_decode_error_wf, RefuseReason, 16, 6, 10, RefuseReason::HandshakeDecodeError(any_u64c(), String::new()), noeq_refuse);
+wf!(c22_q_n1_hs_refuse_refused_wf, RefuseReason, 16, 6, 10, RefuseReason::Refused(any_u64c(), String::new()), noeq_refuse);
+wf!(c22_q_n1_lmn_request_nonblocking_wf, lmn::Message, 16, 6, 10, lmn::Message::RequestMessagesNonBlocking, noeq_lmn);
+wf!(c22_q_n1_lmn_reply_nonblocking0_wf, lmn::Message, 16, 8, 10, lmn::Message::ReplyMessagesNonBlocking(vec![], kani::any()), noeq_lmn);
+wf!(c22_q_n1_lmn_request_blocking_wf, lmn::Message, 16, 6, 10, lmn::Message::RequestMessagesBlocking, noeq_lmn);
+wf!(c22_q_n1_lmn_reply_blocking0_wf, lmn::Message, 16, 8, 10, lmn::Message::ReplyMessagesBlocking(vec![]), noeq_lmn);
+wf!(c22_q_n1_lmn_client_done_wf, lmn::Message, 16, 6, 10, lmn::Message::ClientDone, noeq_lmn);
